@@ -778,7 +778,8 @@ class TranscriptInterval(AbstractFeatureInterval):
             )
             yield row
 
-        if self.cds:
+        # in chunk-relative coordinates a CDS with no base on the sequence chunk has no rows
+        if self.cds and (chromosome_relative_coordinates or not self.cds.chunk_relative_location.is_empty):
             yield from self.cds.to_gff(
                 chromosome_relative_coordinates=chromosome_relative_coordinates,
                 parent_qualifiers=qualifiers,
